@@ -11,9 +11,13 @@ KINDS_FLOAT = [("plain", 3), ("swapped", 3), ("strided", 3), ("strided_swapped",
                ("int", 1), ("offset", 1)]
 
 
-def draw(r, base="f8", allow_convert=True):
+def draw(r, base="f8", allow_convert=True, table=False):
     from .kernel import wpick
     kinds = [k for k in KINDS_FLOAT if allow_convert or k[0] not in ("f4", "int")]
+    if table:
+        # a structured table may also be a selection of columns of a wider table (cat[['id', 'flux']]): a view with
+        # the full row size, the other columns sitting in the gaps between its fields
+        kinds = kinds + [("fieldview", 2)]
     k = wpick(r, kinds)
     return {"kind": k, "stride": r.randrange(2, 4), "off": r.randrange(0, 3)}
 
@@ -41,6 +45,18 @@ def make(arr, spec):
         base.view("u1").reshape(-1)[:] = 0xA5
         arg = base[off:off + n * stride:stride]
         arg[...] = src
+    elif kind == "fieldview" and src.dtype.names and src.ndim == 1 and src.shape[0] > 0:
+        names = list(src.dtype.names)
+        descr = []
+        for i, nm in enumerate(names):
+            descr.append(("other%d" % i, "u1", (1 + (off + i) % 3,)) if i % 2 == 0 else ("other%d" % i, "S%d" % (2 + (off + i) % 4)))
+            descr.append((nm, src.dtype.fields[nm][0]))
+        descr.append(("otherz", "f8"))
+        base = np.empty(src.shape[0], dtype=descr)
+        base.view("u1").reshape(-1)[:] = 0xA5
+        for nm in names:
+            base[nm] = src[nm]
+        arg = base[names]
     elif kind == "offset" and src.ndim >= 1 and src.shape[0] > 0:
         n = src.shape[0]
         base = np.empty((n + off + 2,) + src.shape[1:], dtype=dt)
